@@ -5,6 +5,7 @@
 #include "explorer.h"
 #include "refc3d.h"
 #include "c03.h"
+#include "genfile.h"
 #include <cstdlib>
 
 using namespace vf;
@@ -34,6 +35,7 @@ static std::vector<Op> buildAlphabet(const std::string& name, Limits& L, const s
         A.push_back(opFrame("ok", "app", 1, L)); A.push_back(opFrame("ok", "app", 2, L));
         for (auto d : {"pt_missing", "pt_extra", "pt_renamed", "pt_dup", "ch_missing", "ch_extra", "pt_none"}) A.push_back(opFrame(d, "app", 0, L));
         A.push_back(opFrame("pt_missing", "0", 0, L)); A.push_back(opFrame("ch_extra", "n+1", 0, L));
+        A.push_back(opFrame("addpoints", "0", 1, L)); A.push_back(opFrame("addanalogs", "0", 1, L));
         for (auto w : {"both", "pt", "an"}) A.push_back(opFrameFree(w, 0, L));
         A.push_back(opFrameEmpty(L));
         for (auto d : {"ok", "ok2", "fewer", "more", "none", "nocol", "dup", "dup2"}) A.push_back(opColPoint(d, 0, L));
@@ -56,11 +58,11 @@ static std::vector<Op> buildAlphabet(const std::string& name, Limits& L, const s
         for (auto t : {"app", "n", "n+2", "last"}) A.push_back(opSubmitStored(0, t, L));
     } else if (name == "c07") {     // C07: object states x deviations
         L.maxFrames = 2; L.maxPoints = 3; L.maxChans = 2;
-        for (auto n : {"A", "B"}) A.push_back(opPoint(n, L));
-        for (auto n : {"a", "b"}) A.push_back(opAnalog(n, L));
+        for (auto n : {"AB", "A"}) A.push_back(opPoint(n, L));   // one label is a proper prefix of the other
+        for (auto n : {"a", "ab"}) A.push_back(opAnalog(n, L));
         for (float r : {0.f, 100.f}) A.push_back(opRate("POINT", r));
         for (float r : {0.f, 200.f}) A.push_back(opRate("ANALOG", r));
-        for (auto d : {"ok", "pt_missing", "pt_extra", "pt_renamed", "pt_dup", "pt_perm", "pt_none", "ch_missing", "ch_extra", "ch_renamed", "sub_missing", "sub_extra", "an_none", "empty"})
+        for (auto d : {"ok", "pt_missing", "pt_extra", "pt_renamed", "pt_renamed_first", "pt_dup", "pt_perm", "pt_none", "ch_missing", "ch_extra", "ch_renamed", "sub_missing", "sub_extra", "an_none", "empty"})
             for (auto t : {"app", "0", "n+1"}) A.push_back(opFrame(d, t, 0, L));
         for (auto w : {"both", "pt", "an"}) A.push_back(opFrameFree(w, 0, L));
         A.push_back(opFrameEmpty(L));
@@ -97,6 +99,7 @@ static std::vector<Op> buildAlphabet(const std::string& name, Limits& L, const s
         if (thorough) { A.push_back(opParam("NEWG", "Y", pv("s22"), "d128", false, L)); A.push_back(opParam("G2", "W", pv("i7"), "d255", true, L)); }
         A.push_back(opLock("NEWG", true)); A.push_back(opLock("POINT", true)); A.push_back(opLock("POINT", false));
         A.push_back(opFrame("ok", "app", 0, L)); A.push_back(opFrame("ok", "app", 2, L)); A.push_back(opFrame("ok", "0", 1, L));
+        A.push_back(opFrame("ok", "n+1", 0, L)); A.push_back(opFrame("addpoints", "0", 1, L)); A.push_back(opFrame("addanalogs", "0", 1, L));
         A.push_back(opColPoint("ok", 1, L)); A.push_back(opColAnalog("ok", 1, L));
         A.push_back(opReload());
     } else if (name == "smoke") {
@@ -128,6 +131,16 @@ int main(int argc, char** argv) {
     mkdir(scratch.c_str(), 0755);
     Explorer E; Limits L; E.ops = buildAlphabet(alphabet, L, tier); E.orc = parseOracles(oracles); E.scratch = scratch; E.workers = workers; E.maxDepth = depth; E.maxStates = maxStates;
     E.deadline = Explorer::now() + deadlineS; E.hangSecs = hang; E.alphabetName = alphabet; E.transcriptPath = transcript; if (!transcript.empty()) unlink(transcript.c_str());
+    // root ops: objects loaded from generated files (load-then-edit states), enabled in the initial state only
+    {
+        std::vector<std::pair<std::string, std::string>> roots;
+        if (alphabet == "frames") roots = {{"events", "events=2;first=5"}, {"noanalog", "agroup=empty;chans=0;points=1"}};
+        if (alphabet == "mut") roots = {{"events", "events=2;first=5"}, {"sparse", "ids=sparse;extra=all;order=paramsFirst"}, {"zeros", "zeros=7;prologue=0000;frames=1"}, {"noanalog", "agroup=empty;chans=0;points=1"}};
+        if (alphabet == "build") roots = {{"events", "events=18;first=705"}, {"extra", "extra=all;descs=d127;locks=yes"}, {"str1d", "extra=str1d;ids=swapped"}, {"labels", "labels=more;alabels=fewer;points=3"}, {"noanalog", "agroup=empty;chans=0"}};
+        if (alphabet == "lookup") roots = {{"labels", "labels=fewer;alabels=more;points=3"}, {"events", "events=2"}};
+        std::string rdir = scratch + "/roots"; mkdir(rdir.c_str(), 0755);
+        for (auto& r : roots) { gen::Content c; gen::Layout l; if (!gen::apply(gen::parseChoice(r.second), c, l)) continue; std::string b = gen::encode(c, l); std::string p = rdir + "/" + r.first + ".c3d"; FILE* f = fopen(p.c_str(), "wb"); fwrite(b.data(), 1, b.size(), f); fclose(f); E.rootOps.push_back((int)E.ops.size()); E.ops.push_back(opLoadRoot(r.first + ":" + r.second, p)); }
+    }
     if (list) { for (auto& o : E.ops) printf("%s\n", o.name.c_str()); return 0; }
 
     if (!replayStr.empty() || dump) {     // linear replay without the explorer
